@@ -68,7 +68,7 @@ func LoadEngine(repoDir string, patterns []string, overlay map[string][]byte) (*
 		prog: prog, pkgs: pkgs, ssaPkgs: map[string]*ssa.Package{},
 		intrinsics: map[string]Intrinsic{}, pkgStubs: map[string]Intrinsic{},
 		globalInit:       map[string]func(x *Exec, c *Cell){},
-		maxConcreteAlloc: 1 << 16,
+		maxConcreteAlloc: 1 << 18,
 		initPkgs:         map[string]bool{},
 		repoDir:          repoDir, overlay: overlay,
 		mergeCache:       map[*ssa.Function]bool{},
